@@ -934,7 +934,7 @@ func TestC19E(t *testing.T) {
 // TestC19D: downloader.Manager.Update (helm dependency update) with the real Manager.
 func TestC19D(t *testing.T) {
 	env := c19Setup(t, false)
-	evid.Extra("rule", "C19D: the real downloader.Manager.Update on a parent chart with one dependency c19dep (version 1.0.0 | ^1.0.0 | >=0.1.0) whose repository field is the configured URL, the URL with the trailing slash toggled, @myrepo or alias:myrepo; repositories.yaml and cached indexes as in C19B (second repository in 40% of the cases); SkipUpdate on/off (off: every repository's index.yaml is fetched from the capture server first); Verify never / if-possible / later. URL pairs, redirects and capture as in C19A."+c19Oracle)
+	evid.Extra("rule", "C19D (in 40% of the cases with a second configured repository: unrelated, a mirror on the chart URL's own origin listing the same URL, or a repository on an origin of its own listing the same absolute URL on a third origin): the real downloader.Manager.Update on a parent chart with one dependency c19dep (version 1.0.0 | ^1.0.0 | >=0.1.0) whose repository field is the configured URL, the URL with the trailing slash toggled, @myrepo or alias:myrepo; repositories.yaml and cached indexes as in C19B (second repository in 40% of the cases); SkipUpdate on/off (off: every repository's index.yaml is fetched from the capture server first); Verify never / if-possible / later. URL pairs, redirects and capture as in C19A."+c19Oracle)
 	evid.Extra("assumptions", c19Assumptions)
 	rapid.Check(t, func(rt *rapid.T) {
 		p := c19GenPair(rt)
